@@ -502,7 +502,7 @@ theorem percents_no_digits (n : Nat) : digitsOf (percents n) = [] := by
 
 /-- round_error_bound for the rendered text, and the exact class of (value, code) pairs for which it
 holds on the current code: the selected section has a placeholder, digit-free literals, no
-fraction/switch token, no exponent token, no thousands separator, and the value does NOT take the
+fraction (`/`), denominator or switch token, no exponent token, no thousands separator, and the value does NOT take the
 big-number path (`isNum ∧ precision > 15 ∧ intLen+fracLen > 15`: there the digits are those of the
 shortest rendering rounded half away from zero, see `bignumber_rendered`; the percent count of that path is
 the remaining open finding).  Then numberHandler returns a string whose digits and point
@@ -513,6 +513,7 @@ theorem round_error_bound_rendered (items : List Tok) (value : Str) (up : Bool) 
     (hph : items.any isPlaceholder = true) (hpl : PlainLits items)
     (hun : hasUnmodelled items = false)
     (hsci : (getConf items).useSci = false) (hcomma : (getConf items).useCommaSep = false)
+    (hfrac : (getConf items).useFraction = false)
     (hbig : ¬ (n.isNum = true ∧ n.precision > bigPrecision ∧
         (partLen (getConf items) n.absShort).1 + (partLen (getConf items) n.absShort).2 > bigLen)) :
     ∃ s, numberHandler items value up n = .ok s ∧
@@ -521,7 +522,7 @@ theorem round_error_bound_rendered (items : List Tok) (value : Str) (up : Bool) 
           (if (partLen (getConf items) n.absShort).2 > 0 then 1 else 0))
         (n.fixed (getConf items).percent (partLen (getConf items) n.absShort).2)) := by
   unfold numberHandler
-  simp only [hun, Bool.false_eq_true, if_false]
+  simp only [hun, hfrac, Bool.false_eq_true, if_false]
   have hb : ¬ (n.isNum = true ∧ n.precision > bigPrecision ∧
       (partLen (getConf items) n.absShort).1 + (partLen (getConf items) n.absShort).2 > bigLen ∧ (!(getConf items).useSci) = true) := by
     intro h; exact hbig ⟨h.1, h.2.1, h.2.2.1⟩
@@ -536,12 +537,13 @@ the final string are those of printBigNumber's rounded decimal string -/
 theorem bignumber_rendered (items : List Tok) (value : Str) (up : Bool) (n : NumIn)
     (hph : items.any isPlaceholder = true) (hpl : PlainLits items)
     (hun : hasUnmodelled items = false) (hsci : (getConf items).useSci = false)
+    (hfrac : (getConf items).useFraction = false)
     (hbig : n.isNum = true ∧ n.precision > bigPrecision ∧
         (partLen (getConf items) n.absShort).1 + (partLen (getConf items) n.absShort).2 > bigLen) :
     ∃ s, numberHandler items value up n = .ok s ∧
       digitsOf s = digitsOf (printBigNumber (getConf items) n (partLen (getConf items) n.absShort).2) := by
   unfold numberHandler
-  simp only [hun, Bool.false_eq_true, if_false]
+  simp only [hun, hfrac, Bool.false_eq_true, if_false]
   have hb : (n.isNum = true ∧ n.precision > bigPrecision ∧
       (partLen (getConf items) n.absShort).1 + (partLen (getConf items) n.absShort).2 > bigLen ∧ (!(getConf items).useSci) = true) := by
     refine ⟨hbig.1, hbig.2.1, hbig.2.2, ?_⟩; rw [hsci]; rfl
@@ -739,5 +741,88 @@ the built-in table says for that id -/
 theorem resolve_custom_duplicate (id s : Nat) (c1 c2 : Str) (rest : List (Nat × Str)) (o : Glue.GOpts)
     (hs : s ≠ 0) : Glue.resolve ((id, c1) :: (id, c2) :: rest) s id o = some c1 := by
   simp [Glue.resolve, hs, List.lookup]
+
+/-! ## fraction formats (`# ?/?`): what fractionHandler / newRat / continuedFraction compute -/
+
+/-- the literals of the search loop (5000 iterations, three blanks for a zero fraction) -/
+theorem fraction_facts_ok :
+    Facts.C10.fractionHandlerInts = [0, 5000, 0, 3, 64] ∧ Facts.C10.continuedFractionInts = [0, 1, 1, 1] ∧
+    Facts.C10.newRatInts = [1] := by decide
+
+/-- every truncated continued fraction the search evaluates is a proper fraction in lowest terms
+with a positive denominator (so printing numerator and denominator as computed is what big.Rat's
+normalised `String()` prints) -/
+theorem cf_lowest_terms (terms : List Nat) :
+    Nat.gcd (cfEval terms).1 (cfEval terms).2 = 1 ∧ 0 < (cfEval terms).2 ∧ (cfEval terms).1 ≤ (cfEval terms).2 := by
+  induction terms with
+  | nil => decide
+  | cons a rest ih =>
+    obtain ⟨hg, hpos, hle⟩ := ih
+    simp only [cfEval]
+    refine ⟨?_, ?_, ?_⟩
+    · rw [Nat.gcd_rec]
+      have hm : ((a + 1) * (cfEval rest).2 + (cfEval rest).1) % (cfEval rest).2 = (cfEval rest).1 % (cfEval rest).2 := by
+        rw [Nat.add_comm, Nat.add_mul_mod_self_right]
+      rw [hm, ← Nat.gcd_rec, Nat.gcd_comm]; exact hg
+    · have : (cfEval rest).2 ≤ (a + 1) * (cfEval rest).2 := Nat.le_mul_of_pos_left _ (by omega)
+      omega
+    · have : (cfEval rest).2 ≤ (a + 1) * (cfEval rest).2 := Nat.le_mul_of_pos_left _ (by omega)
+      omega
+
+/-- the exact property the search satisfies: the string it returns is the one it started with, or
+it prints a CONVERGENT of the continued fraction (some prefix of the terms) whose denominator fits the
+digit budget of the placeholder — three blanks when that convergent is zero.  (Not: the closest
+fraction within the budget, see `finding_fraction_not_closest`.) -/
+theorem fraction_is_convergent_within_budget (terms : List Nat) (ph : Nat) :
+    ∀ (fuel i : Nat) (rat : Str), fracLoop terms ph i fuel rat = rat ∨
+      ∃ k, (itoa (cfEval (terms.take k)).2).length ≤ ph ∧
+        fracLoop terms ph i fuel rat =
+          (if (cfEval (terms.take k)).1 = 0 then [' ', ' ', ' ']
+           else itoa (cfEval (terms.take k)).1 ++ '/' :: itoa (cfEval (terms.take k)).2) := by
+  intro fuel
+  induction fuel with
+  | zero => intro i rat; left; rfl
+  | succ f ih =>
+    intro i rat
+    unfold fracLoop
+    dsimp only
+    split
+    · rename_i hfit
+      rcases ih (i + 1) (if (cfEval (terms.take (i - 1))).1 = 0 then [' ', ' ', ' ']
+          else itoa (cfEval (terms.take (i - 1))).1 ++ '/' :: itoa (cfEval (terms.take (i - 1))).2) with h | ⟨k, hk, he⟩
+      · right; exact ⟨i - 1, hfit, h⟩
+      · right; exact ⟨k, hk, he⟩
+    · left; rfl
+
+/-- terms 7, 15, 1, 25 of 0.14159 (stored as a-1) -/
+def piTerms : List Nat := [6, 14, 0, 24]
+
+/-- deviation from Excel (open finding `fraction:not-closest`): for 3.14159 under `# ??/??` the search
+stops at the convergent 1/7 because the next convergent 15/106 has three digits, although 14/99 fits
+two digits and is closer (|14/99 − x| < |1/7 − x| for x = 14159/100000; Excel shows 3 14/99) -/
+theorem finding_fraction_not_closest :
+    fractionHandler piTerms ⟨"DigitalPlaceHolder", ['?', '?'], []⟩ = bs "1/7" ∧
+    (14159 * 99 - 14 * 100000) * 7 < (1 * 100000 - 14159 * 7) * 99 := by
+  constructor
+  · decide +kernel
+  · decide
+
+/-- deviation (open finding `fraction:improper-concatenated`): a fraction code without an integer
+placeholder (`?/?`) prints the integer digits through the numerator placeholder and then the proper
+fraction: 3.14159 renders "31/7" (Excel: 22/7) -/
+theorem finding_improper_fraction_concatenated :
+    format [⟨"Positive", [⟨"DigitalPlaceHolder", ['?'], []⟩, ⟨"Fraction", ['/'], []⟩, ⟨"DigitalPlaceHolder", ['?'], []⟩]⟩]
+      (bs "3.14159") true
+      { bigLayer "3.14159" "314.159" 6 with cfPred := piTerms, fixedFloor := fun _ _ => ['3'] } noDate
+      = .ok (bs "31/7") := by
+  decide +kernel
+
+/-- the intended use: `# ?/?` on 1.5 renders "1 1/2" -/
+theorem fraction_sample :
+    format [⟨"Positive", [⟨"HashPlaceHolder", ['#'], []⟩, ⟨"Literal", [' '], []⟩, ⟨"DigitalPlaceHolder", ['?'], []⟩,
+        ⟨"Fraction", ['/'], []⟩, ⟨"DigitalPlaceHolder", ['?'], []⟩]⟩]
+      (bs "1.5") true { bigLayer "1.5" "150" 2 with cfPred := [1], fixedFloor := fun _ _ => ['1'] } noDate
+      = .ok (bs "1 1/2") := by
+  decide +kernel
 
 end XlModel.Props.C10
